@@ -113,3 +113,101 @@ Proof.
   - destruct f; reflexivity.
   - destruct f as [|f]; [cbn [length] in Hf; lia|]. rewrite (decode_escape_cp f c _ Hc). f_equal. apply IH. cbn [length] in Hf. lia.
 Qed.
+
+(* ---- every code point decode produces is a Unicode scalar value (for texts of bytes) ---- *)
+Definition is_byte (c : N) : Prop := c < 256.
+Lemma hexval_bound c : is_byte c -> hexval c <= 168.
+Proof. unfold is_byte, hexval, digit. intros H. destruct ((48 <=? c) && (c <=? 57)) eqn:E; [lia|]. destruct (97 <=? c) eqn:E2; lia. Qed.
+Lemma u4_bound h1 h2 h3 h4 : is_byte h1 -> is_byte h2 -> is_byte h3 -> is_byte h4 -> u4 h1 h2 h3 h4 < 1114112.
+Proof. intros A B C D. unfold u4. pose proof (hexval_bound _ A). pose proof (hexval_bound _ B). pose proof (hexval_bound _ C). pose proof (hexval_bound _ D). lia. Qed.
+
+Lemma utf8_head_valid c r : is_byte c -> Forall is_byte r -> valid_cp (fst (utf8_head c r)) /\ Forall is_byte (snd (utf8_head c r)) /\ (length (snd (utf8_head c r)) <= length r)%nat.
+Proof.
+  intros Hc Hr. unfold utf8_head, is_cont, valid_cp, is_byte in *.
+  assert (Hbad : (65533 < 55296 \/ 57344 <= 65533 /\ 65533 < 1114112) /\ Forall (fun x => x < 256) r /\ (length r <= length r)%nat) by (split; [lia|split; [exact Hr|lia]]).
+  destruct (c <? 128) eqn:E0; [cbn [fst snd]; split; [lia|split; [exact Hr|lia]]|].
+  destruct ((194 <=? c) && (c <=? 223)) eqn:E1.
+  - destruct r as [|c1 r1]; [exact Hbad|]. inversion Hr as [|? ? H1 Hr1]; subst.
+    destruct ((128 <=? c1) && (c1 <=? 191)) eqn:E; [|exact Hbad]. cbn [fst snd length]. split; [lia|split; [exact Hr1|lia]].
+  - destruct ((224 <=? c) && (c <=? 239)) eqn:E2.
+    + destruct r as [|c1 [|c2 r2]]; try exact Hbad. inversion Hr as [|? ? H1 Hr1]; subst. inversion Hr1 as [|? ? H2 Hr2]; subst.
+      destruct (((if c =? 224 then 160 else 128) <=? c1) && (c1 <=? (if c =? 237 then 159 else 191)) && ((128 <=? c2) && (c2 <=? 191))) eqn:E; [|exact Hbad].
+      cbn [fst snd length]. split; [|split; [exact Hr2|lia]].
+      destruct (c =? 224) eqn:X1; destruct (c =? 237) eqn:X2; lia.
+    + destruct ((240 <=? c) && (c <=? 244)) eqn:E3; [|exact Hbad].
+      destruct r as [|c1 [|c2 [|c3 r3]]]; try exact Hbad.
+      inversion Hr as [|? ? H1 Hr1]; subst. inversion Hr1 as [|? ? H2 Hr2]; subst. inversion Hr2 as [|? ? H3 Hr3]; subst.
+      destruct (((if c =? 240 then 144 else 128) <=? c1) && (c1 <=? (if c =? 244 then 143 else 191)) && ((128 <=? c2) && (c2 <=? 191)) && ((128 <=? c3) && (c3 <=? 191))) eqn:E; [|exact Hbad].
+      cbn [fst snd length]. split; [|split; [exact Hr3|lia]].
+      destruct (c =? 240) eqn:X1; destruct (c =? 244) eqn:X2; lia.
+Qed.
+
+(* decode, one step at a time, as a function of the first bytes (no pattern matching on numerals left) *)
+Lemma decode_cases f s :
+  decode (S f) s =
+  match s with
+  | [] => []
+  | c :: r =>
+    if negb (c =? 92) then (let (cp, r') := utf8_head c r in cp :: decode f r')
+    else match r with
+         | [] => 92 :: decode f []
+         | e :: r1 =>
+           if negb (e =? 117) then (match e with 98 => 8 | 102 => 12 | 110 => 10 | 114 => 13 | 116 => 9 | _ => e end) :: decode f r1
+           else match r1 with
+                | h1 :: h2 :: h3 :: h4 :: r2 =>
+                  let u := u4 h1 h2 h3 h4 in
+                  if (55296 <=? u) && (u <=? 56319) then
+                    match r2 with
+                    | b1 :: b2 :: g1 :: g2 :: g3 :: g4 :: r' =>
+                      let v := u4 g1 g2 g3 g4 in
+                      if (b1 =? 92) && (b2 =? 117) && ((56320 <=? v) && (v <=? 57343)) then (65536 + (u - 55296) * 1024 + (v - 56320)) :: decode f r'
+                      else 65533 :: decode f r2
+                    | _ => 65533 :: decode f r2
+                    end
+                  else if (56320 <=? u) && (u <=? 57343) then 65533 :: decode f r2
+                  else u :: decode f r2
+                | _ => 117 :: decode f r1
+                end
+         end
+  end.
+Proof.
+  destruct s as [|c r]; [reflexivity|]. destruct (N.eqb_spec c 92) as [->|Hc]; cbn [negb].
+  - destruct r as [|e r1]; [reflexivity|]. destruct (N.eqb_spec e 117) as [->|He]; cbn [negb].
+    + destruct r1 as [|h1 [|h2 [|h3 [|h4 r2]]]]; try reflexivity.
+      cbn [decode]. cbv zeta. destruct ((55296 <=? u4 h1 h2 h3 h4) && (u4 h1 h2 h3 h4 <=? 56319)); [|reflexivity].
+      destruct r2 as [|b1 r3]; [reflexivity|].
+      destruct (N.eqb_spec b1 92) as [->|Hb1].
+      * destruct r3 as [|b2 r4]; [reflexivity|]. destruct (N.eqb_spec b2 117) as [->|Hb2].
+        -- destruct r4 as [|g1 [|g2 [|g3 [|g4 r']]]]; reflexivity.
+        -- destruct r4 as [|g1 [|g2 [|g3 [|g4 r']]]]; (destruct b2 as [|p]; [reflexivity|]; repeat (destruct p as [p|p|]; try reflexivity); congruence).
+      * destruct r3 as [|b2 [|g1 [|g2 [|g3 [|g4 r']]]]]; (destruct b1 as [|p]; [reflexivity|]; repeat (destruct p as [p|p|]; try reflexivity); congruence).
+    + apply decode_simple. exact He.
+  - apply decode_raw. exact Hc.
+Qed.
+
+Theorem decode_valid : forall f s, Forall is_byte s -> Forall valid_cp (decode f s).
+Proof.
+  induction f as [|f IH]; intros s Hs; [constructor|]. rewrite decode_cases. destruct s as [|c r]; [constructor|].
+  inversion Hs as [|? ? Hc Hr]; subst.
+  assert (V65533 : valid_cp 65533) by (unfold valid_cp; lia).
+  destruct (negb (c =? 92)) eqn:E92.
+  - destruct (utf8_head_valid c r Hc Hr) as (Hv & Hb & _). destruct (utf8_head c r) as [cp r']. cbn [fst snd] in *. constructor; [exact Hv|apply IH; exact Hb].
+  - destruct r as [|e r1]; [constructor; [unfold valid_cp; lia|apply IH; constructor]|].
+    inversion Hr as [|? ? He Hr1]; subst.
+    destruct (negb (e =? 117)) eqn:E117.
+    + constructor; [|apply IH; exact Hr1]. unfold valid_cp, is_byte in *.
+      destruct e as [|p]; [lia|]. repeat (destruct p as [p|p|]; try lia).
+    + destruct r1 as [|h1 [|h2 [|h3 [|h4 r2]]]]; try (constructor; [unfold valid_cp; lia|apply IH; exact Hr1]).
+      inversion Hr1 as [|? ? H1 T1]; subst. inversion T1 as [|? ? H2 T2]; subst. inversion T2 as [|? ? H3 T3]; subst. inversion T3 as [|? ? H4 T4]; subst.
+      pose proof (u4_bound _ _ _ _ H1 H2 H3 H4) as Hu. cbv zeta.
+      destruct ((55296 <=? u4 h1 h2 h3 h4) && (u4 h1 h2 h3 h4 <=? 56319)) eqn:Ehi.
+      * assert (Hdef : Forall valid_cp (65533 :: decode f r2)) by (constructor; [exact V65533|apply IH; exact T4]).
+        destruct r2 as [|b1 [|b2 [|g1 [|g2 [|g3 [|g4 r']]]]]]; try exact Hdef.
+        destruct ((b1 =? 92) && (b2 =? 117) && ((56320 <=? u4 g1 g2 g3 g4) && (u4 g1 g2 g3 g4 <=? 57343))) eqn:Elo; [|exact Hdef].
+        constructor; [unfold valid_cp; lia|]. apply IH.
+        inversion T4 as [|? ? _ U1]; subst. inversion U1 as [|? ? _ U2]; subst. inversion U2 as [|? ? _ U3]; subst. inversion U3 as [|? ? _ U4]; subst.
+        inversion U4 as [|? ? _ U5]; subst. inversion U5 as [|? ? _ U6]; subst. exact U6.
+      * destruct ((56320 <=? u4 h1 h2 h3 h4) && (u4 h1 h2 h3 h4 <=? 57343)) eqn:Elo.
+        -- constructor; [exact V65533|apply IH; exact T4].
+        -- constructor; [unfold valid_cp; lia|apply IH; exact T4].
+Qed.
